@@ -198,6 +198,11 @@ fn write_last_op() {
 }
 
 extern "C" fn on_abort(_sig: libc::c_int) {
+    // let the filter thread forward what the panic hook has already written (message, location)
+    let ts = libc::timespec { tv_sec: 0, tv_nsec: 150_000_000 };
+    unsafe {
+        libc::nanosleep(&ts, std::ptr::null_mut());
+    }
     write_last_op();
     unsafe {
         libc::signal(libc::SIGABRT, libc::SIG_DFL);
